@@ -255,7 +255,7 @@ PROPS["C07"] = {
              "or derived route; distinct by case hash."),
     "assumptions": ["the must-accept grammar is limited to forms shown in doc comments and the test table", "a four-part gitlab.com address is a registry address (documented precedence)"],
     "quick": [rapid("strings", "^TestPropStrings$", 50000, shards=3), rapid("make", "^TestPropMake$", 50000, shards=2), rapid("resolved", "^TestPropResolved$", 30000, shards=1)],
-    "thorough": [rapid("strings", "^TestPropStrings$", 400000, shards=6), rapid("make", "^TestPropMake$", 400000, shards=4), rapid("resolved", "^TestPropResolved$", 200000, shards=2)],
+    "thorough": [rapid("strings", "^TestPropStrings$", 400000, shards=6), rapid("make", "^TestPropMake$", 400000, shards=4), rapid("resolved", "^TestPropResolved$", 200000, shards=2), fuzz("FuzzPolicy", "120s")],
 }
 
 WORLD_RULE = ("Worlds are data: 1-4 remote packages (git/https addresses with refs, ports, archive arguments; 1-3 module locations each, also "
